@@ -1,2 +1,89 @@
-From ML Require Import Model.Types gen.Tables Model.Pitch.
-Theorem C01_stub : True. Proof. exact I. Qed.
+(* C01 - a note's pitch in a chord is the one tonal theory (and the docs) define.
+   Only statements here; proofs are in Proofs/PitchProofs.v. *)
+From ML Require Import Model.Types gen.Tables Model.Pitch Spec.PitchSpec Proofs.PitchProofs.
+Open Scope Z_scope.
+
+(* the generated SCALES table = rotations of the major scale, harmonic and melodic minor *)
+Theorem C01_mode_tables : forall md, SCALES md = spec_mode md.
+Proof. exact mode_tables. Qed.
+
+(* Chord.scale_pitches: the tonality scale started on the chord degree, closed form in Z *)
+Theorem C01_chord_scale : forall c, elem_ok c ->
+  chord_scale c = Some (map (chord_deg c) idx7).
+Proof. exact chord_scale_spec. Qed.
+
+(* scale note (any value, any octave): degree v + 7o of the chord's (or the note's own mode's) scale *)
+Theorem C01_scale_note : forall c n, elem_ok c -> pkind n = KS -> pacc n = None ->
+  to_pitch_abs c n = Some (Some (chord_deg_in (note_mode c n) c (pval n + 7 * poct n))).
+Proof. intros c n H K A. unfold to_pitch_abs. rewrite K, (pitch_basic_scale c n H K A). reflexivity. Qed.
+
+(* chromatic note: semitones from the chord root *)
+Theorem C01_chromatic_note : forall c n, elem_ok c -> pkind n = KH ->
+  to_pitch_abs c n = Some (Some (chord_deg_in (note_mode c n) c 0 + pval n + 12 * poct n)).
+Proof. intros c n H K. unfold to_pitch_abs. rewrite K, (pitch_basic_chromatic c n H K). reflexivity. Qed.
+
+(* absolute note: independent of the chord *)
+Theorem C01_absolute_note : forall c n, elem_ok c -> pkind n = KA ->
+  to_pitch_abs c n = Some (Some (pval n + 12 * poct n)).
+Proof. intros c n H K. unfold to_pitch_abs. rewrite K, (pitch_basic_absolute c n H (or_introl K)). reflexivity. Qed.
+
+(* accidental: golden cell above the chord root; values outside 0..6 are rejected (KeyError) *)
+Theorem C01_accident_note : forall c n a, elem_ok c -> pkind n = KS -> pacc n = Some a ->
+  to_pitch_abs c n =
+  option_map (fun t => Some (chord_deg_in (note_mode c n) c 0 + t + 12 * poct n)) (ACC_GOLDEN (pval n) a).
+Proof.
+  intros c n a H K A. unfold to_pitch_abs. rewrite K, (pitch_basic_accident c n a H K A).
+  destruct (ACC_GOLDEN (pval n) a); reflexivity.
+Qed.
+
+Theorem C01_accident_table : forall v a, ACCIDENTS_TO_NOTE v a = ACC_GOLDEN v a.
+Proof. exact accident_table. Qed.
+
+(* the 11 bare figures: stacked thirds, inversions rotate them with the wrapped tones an octave up *)
+Theorem C01_arpeggio : forall c f, elem_ok c -> In f all_figures -> cext c = bare f ->
+  chord_pitches c = option_map (map (chord_deg c)) (root_degs f) /\
+  chord_extension_pitches c = option_map (map (chord_deg c)) (bass_degs f).
+Proof. exact arpeggio_bare. Qed.
+
+(* chord-tone / bass-tone notes walk the arpeggio: tone v mod n, octave v / n + o *)
+Theorem C01_chord_note : forall c n cp, pkind n = KC -> chord_pitches c = Some cp -> cp <> [] ->
+  to_pitch_abs c n = Some (Some (arp_pitch cp (pval n) (poct n))).
+Proof.
+  intros c n cp K E H. unfold to_pitch_abs. rewrite K, E. cbn [obind].
+  rewrite (chord_note_walk n cp H). reflexivity.
+Qed.
+
+Theorem C01_bass_note : forall c n cp, pkind n = KB -> chord_extension_pitches c = Some cp -> cp <> [] ->
+  to_pitch_abs c n = Some (Some (arp_pitch cp (pval n) (poct n))).
+Proof.
+  intros c n cp K E H. unfold to_pitch_abs. rewrite K, E. cbn [obind].
+  rewrite (chord_note_walk n cp H). reflexivity.
+Qed.
+
+(* one octave is exactly 12: note octave (all pitched kinds, any chord with any modifiers) *)
+Theorem C01_note_octave : forall c n k p, to_pitch_abs c n = Some (Some p) ->
+  to_pitch_abs c (with_oct n k) = Some (Some (p + 12 * k)).
+Proof. exact to_pitch_note_octave. Qed.
+
+(* tonality degree a, tonality octave b, chord octave d move chord-relative pitches by a+12b+12d *)
+Theorem C01_degree_octave_equivariant : forall c a b d n p,
+  (pkind n = KS \/ pkind n = KH \/ pkind n = KC \/ pkind n = KB) ->
+  to_pitch_abs c n = Some (Some p) ->
+  to_pitch_abs (shift_chord c a b d) n = Some (Some (p + (a + 12 * b + 12 * d))).
+Proof. exact to_pitch_equivariant. Qed.
+
+Theorem C01_absolute_ignores_chord : forall c a b d n, elem_ok c -> pkind n = KA ->
+  to_pitch_abs (shift_chord c a b d) n = to_pitch_abs c n.
+Proof. exact to_pitch_absolute_invariant. Qed.
+
+(* pitch 0 is middle C: s0 on I of C major *)
+Theorem C01_middle_C :
+  to_pitch_abs (mkC 0 (bare "") (mkT 0 MMaj 0) 0) (plain KS 0 0) = Some (Some 0).
+Proof. vm_compute. reflexivity. Qed.
+
+(* non-vacuity: concrete non-trivial inputs meeting the hypotheses *)
+Example C01_ex_chord : elem_ok (mkC 4 (mkE "65" ["sus4"]%string ["add9"]%string []) (mkT 9 MMel (-1)) 2).
+Proof. unfold elem_ok; cbn; split; discriminate. Qed.
+Example C01_ex_equivariant :
+  to_pitch_abs (mkC 4 (mkE "65" [] ["add9"]%string []) (mkT 9 MMel (-1)) 2) (plain KB 5 (-1)) = Some (Some 32).
+Proof. vm_compute. reflexivity. Qed.
